@@ -74,6 +74,9 @@ pub const A_WRITE_HOLE: u16 = 20;
 pub const A_BADFLAG_ASYNC: u16 = 21;
 pub const A_R1_WRITE1: u16 = 30;
 pub const A_R1_READ0: u16 = 31;
+/// drop ring 0 (everything on it has been drained) while ring 1 stays in use, then open
+/// two rings: the new ring 0 and a spare one that is kept alive and never used
+pub const A_CHURN0: u16 = 50;
 /// drain ring 0 with the k-th scripted shuffle value
 pub const A_DRAIN0_PERM: u16 = 40;
 
@@ -117,6 +120,8 @@ pub struct USys {
     iou: Arc<Mutex<IoUringHostState>>,
     rings: Vec<Option<IoUring>>,
     dead_rings: Vec<IoUring>,
+    spare_rings: Vec<IoUring>,
+    churns: u32,
     file: Option<sfs::File>,
     file_fd: i32,
     bufs: Vec<Box<[u8; 8]>>,
@@ -489,6 +494,7 @@ impl USys {
                 self.dead_rings.push(x);
             }
         }
+        self.dead_rings.append(&mut self.spare_rings);
         for i in 0..self.cfg.rings {
             self.rings[i] = Some(IoUring::new(self.cfg.depth_ring).map_err(|e| Violation::new("new-ring", format!("IoUring::new after crash failed: {e}")))?);
         }
@@ -518,6 +524,15 @@ impl USys {
             }
             A_ADV_FULL => {
                 self.now_us += self.cfg.latency_us;
+                return Ok(());
+            }
+            A_CHURN0 => {
+                self.churns += 1;
+                let old = self.rings[0].take();
+                drop(old);
+                self.rings[0] = Some(IoUring::new(self.cfg.depth_ring).map_err(|e| Violation::new("new-ring", format!("IoUring::new failed: {e}")))?);
+                self.spare_rings.push(IoUring::new(self.cfg.depth_ring).map_err(|e| Violation::new("new-ring", format!("IoUring::new failed: {e}")))?);
+                self.log.push("ring 0 dropped; new ring 0 and a spare ring opened".into());
                 return Ok(());
             }
             A_DRAIN0 => self.drain(0, usize::MAX, None)?,
@@ -642,6 +657,8 @@ impl System for USys {
             iou,
             rings: vec![],
             dead_rings: vec![],
+            spare_rings: vec![],
+            churns: 0,
             file: None,
             file_fd: -1,
             bufs: vec![],
@@ -691,6 +708,7 @@ impl System for USys {
                 A_CLOSE if !self.file_open => continue,
                 A_CRASH if self.crashes >= 1 => continue,
                 A_SUBMIT1 | A_DRAIN1 | A_R1_WRITE1 | A_R1_READ0 if self.cfg.rings < 2 => continue,
+                A_CHURN0 if self.cfg.rings < 2 || self.churns >= 1 || self.rings[0].is_none() || !self.subs.iter().filter(|s| s.ring == 0).all(|s| matches!(s.st, St::Done | St::Lost)) => continue,
                 _ => {}
             }
             out.push(a);
@@ -712,6 +730,7 @@ impl System for USys {
             A_DRAIN1 => "ring1: cq.sync(); drain all".into(),
             A_DRAIN_ONE0 => "ring0: cq.sync(); take one CQE; drop the queue".into(),
             A_CLOSE => "close the file".into(),
+            A_CHURN0 => "drop ring0 (fully drained), open a new ring0 and a spare ring that stays alive".into(),
             A_CRASH => "CRASH host (Fs::crash + IoUringHostState::crash), restart: new rings, reopen file".into(),
             A_READ0 => "ring0: push read(off 0, len 2)".into(),
             A_READ2 => "ring0: push read(off 2, len 4)".into(),
@@ -746,7 +765,7 @@ impl System for USys {
         d.add_str(&self.fs.lock().unwrap().verif_dump());
         d.add_str(&self.iou.lock().unwrap().verif_dump(now));
         d.add(&self.subs);
-        d.add(&(&self.content, &self.durable, self.file_open, self.steps, self.crashes, &self.floating));
+        d.add(&(&self.content, &self.durable, self.file_open, self.steps, self.crashes, &self.floating, self.churns));
         d.add(&self.feats.contains(&"duplicate-user-data"));
         d.finish()
     }
@@ -774,6 +793,18 @@ impl System for USys {
             for r in 0..self.cfg.rings {
                 self.drain(r, usize::MAX, None)?;
                 self.drain(r, usize::MAX, None)?;
+            }
+            // a spare ring never had a submission: it stays silent
+            for r in self.spare_rings.iter_mut() {
+                let _ = r.submit();
+                let mut cq = r.completion();
+                cq.sync();
+                if let Some(e) = cq.next() {
+                    return Err(Violation::new(
+                        "foreign-completion",
+                        format!("a ring that never had a submission delivered CQE user_data={} result={}", e.user_data(), e.result()),
+                    ));
+                }
             }
             // rings from before a crash must stay silent
             let dead = std::mem::take(&mut self.dead_rings);
@@ -824,6 +855,7 @@ impl System for USys {
             let g: Guards<'static> = unsafe { std::mem::transmute(g) };
             self.file.take();
             self.rings.clear();
+            self.spare_rings.clear();
             self.dead_rings.clear();
             drop(g);
         }
